@@ -92,7 +92,7 @@ def cci(c, p):
         w = tp[i - p + 1:i + 1]
         m = math.fsum(w) / p
         md = math.fsum(abs(a - m) for a in w) / p
-        if md > 0:
+        if md > 1e-9 * abs(m):  # a window of (numerically) identical prices: 0/0, and the sign of rounding noise otherwise
             out[i] = (tp[i] - m) / (0.015 * md)
     return out
 
